@@ -387,7 +387,7 @@ func runSession(r *vrt.Run, idx int, rng *rand.Rand, sp *sessionPlan) {
 	res := [2]*sideRes{&resA, &resB}
 	wit := func() map[string]any {
 		w := map[string]any{"session": idx, "kind": sp.kind, "snappy": sp.snappy, "concurrent": sp.concurrent, "split": sp.split,
-			"frag": []string{chunkNames[sp.frag[0]], chunkNames[sp.frag[1]]},
+			"frag":   []string{chunkNames[sp.frag[0]], chunkNames[sp.frag[1]]},
 			"hsErrA": errStr(resA.hsErr), "hsErrB": errStr(resB.hsErr)}
 		for d := 0; d < 2; d++ {
 			var ms []string
